@@ -37,7 +37,7 @@ type pcCase struct {
 	Uptime     int64    `json:"uptime"` // virtual ns the saving cache has been up before the build starts
 	Build      []pcStep `json:"build"`
 	EndWithSet bool     `json:"end_with_set"`
-	Big        int      `json:"big,omitempty"` // number of 1 MiB values appended (multi-block streams)
+	Big        int      `json:"big,omitempty"`      // number of 1 MiB values appended (multi-block streams)
 	HotKeep    int      `json:"hot_keep,omitempty"` // a cache that shrank and is hot: HotKeep+HotDrop keys stored, HotDrop deleted again,
 	HotDrop    int      `json:"hot_drop,omitempty"` // the rest read 20 times each (high saved frequencies under a sketch sized for more entries)
 	TargetSize int      `json:"target_size"`
@@ -1066,5 +1066,95 @@ func TestVerifC12(t *testing.T) {
 		ID: "C12", Gen: genPersist(true), Exec: dispatchC12,
 		Rule:        "C12: rapid draws a cache (types, MaxSize 1..30, saver uptime 0..30 days, build script with TTLs, elapsed time before the load) and 4..12 multi-byte damages; for each generated stream the executor enumerates EVERY truncation offset, EVERY single-bit flip and the substitutions {0x00,0xFF,+1} at EVERY offset (streams <= 4 KiB; sampled plus all header/type-descriptor offsets otherwise), pairs of faults (each single header/descriptor fault that was tolerated silently combined with two bit flips at each of ~200 positions spread over the stream; up to 24 such single faults per stream), the drawn multi-byte damages, the duplication, removal and pairwise swap of whole gob messages, and - with the gob type definitions hoisted to the front - every ordered selection of the block messages (blocks dropped and permuted; most streams carry a protected block); each damaged stream is loaded under the saved version and under another version; a stream is non-trivial when faults hit block header fields or gob type descriptors, or truncations fell inside the last message (always true for enumerated streams; distinct = distinct streams)",
 		Assumptions: append([]string{"gob's length-prefixed framing is parsed by the harness to locate messages and the end of the metadata message"}, pcAssumptions...),
+	})
+}
+
+// C07 (recover tier) — the policy state of a cache loaded from a snapshot that was taken while
+// cost updates were still queued (entry cost != policy cost in the stream): the structural
+// invariants must hold after the load and after further inserts, whatever the two costs are.
+type c07rCase struct {
+	Base    pcCase   `json:"base"`
+	Pending [][2]int `json:"pending"` // (key index, new cost): re-writes whose UPDATE event is still queued when the snapshot is taken
+	After   int      `json:"after"`   // fresh keys inserted into the loaded cache
+}
+
+func genC07r(t *rapid.T) c07rCase {
+	g := genPersist(false)
+	c := c07rCase{Base: g(t)}
+	c.Base.Type, c.Base.Big, c.Base.HotKeep, c.Base.HotDrop = "int", 0, 0, 0
+	if c.Base.MaxSize < 8 {
+		c.Base.MaxSize = 8 + c.Base.MaxSize
+	}
+	c.Base.TargetSize = c.Base.MaxSize
+	n := rapid.IntRange(1, 4).Draw(t, "pending")
+	for i := 0; i < n; i++ {
+		c.Pending = append(c.Pending, [2]int{rapid.IntRange(0, c.Base.MaxSize+c.Base.MaxSize/2+1).Draw(t, "pk"), rapid.IntRange(1, c.Base.MaxSize/2).Draw(t, "pcost")})
+	}
+	c.After = rapid.IntRange(0, 3*c.Base.MaxSize).Draw(t, "after")
+	return c
+}
+
+func execC07r(c c07rCase, x *verifkit.Ctx) (fail *verifkit.Failure) {
+	defer func() {
+		if rec := recover(); rec != nil {
+			fail = verifkit.Failf("recover/panic", "panic: %v", rec)
+		}
+	}()
+	cd := pcIntCodec
+	y, seq := pcBuild(c.Base, cd, x)
+	mismatch := false
+	for _, p := range c.Pending {
+		k := cd.key(p[0])
+		_, idx := y.s.index(k)
+		e := y.s.shards[idx].hashmap[k]
+		if e == nil || e.weight.Load() == int64(p[1]) {
+			continue
+		}
+		seq++
+		y.s.Set(k, cd.val(seq, 0), int64(p[1]), 0) // the UPDATE event stays in the write queue
+		mismatch = true
+	}
+	var sb bytes.Buffer
+	if err := y.s.Persist(7, &sb); err != nil {
+		return verifkit.Failf("persist/save-error", "SaveCache failed: %v", err)
+	}
+	z := newSyncStore[int, int](c.Base.MaxSize, nil)
+	if err := z.s.Recover(7, bytes.NewReader(sb.Bytes())); err != nil {
+		return verifkit.Failf("recover/error", "LoadCache of an undamaged stream failed: %v", err)
+	}
+	check := func(when string) *verifkit.Failure {
+		if _, f := vkCheckPolicy(z.s.policy, 1<<20); f != nil {
+			f.Msg = when + ": " + f.Msg
+			f.Sig = "recover/" + f.Sig
+			return f
+		}
+		if z.s.policy.weightedSize > z.s.policy.capacity {
+			return verifkit.Failf("recover/policy/over-capacity", "%s: policy total %d > MaxSize %d", when, z.s.policy.weightedSize, z.s.policy.capacity)
+		}
+		return nil
+	}
+	if f := check("right after the load"); f != nil {
+		return f
+	}
+	for i := 0; i < c.After; i++ {
+		seq++
+		z.set(cd.key(5000+i), cd.val(seq, 0), int64(1+i%3), 0)
+		if f := check(fmt.Sprintf("after %d further inserts", i+1)); f != nil {
+			return f
+		}
+	}
+	x.ClassIf(mismatch, "snapshot-with-queued-cost-update")
+	if mismatch {
+		x.NonTrivial()
+	}
+	return nil
+}
+
+func TestVerifC07Recover(t *testing.T) {
+	vkOwnPipeline()
+	verifkit.Run(t, verifkit.Spec[c07rCase]{
+		ID: "C07", Gen: genC07r, Exec: execC07r,
+		Rule:        "C07 (recover tier): a cache built by the C11 generator is re-written on 1..4 resident keys with a different cost whose UPDATE events stay queued, saved in that state (entry cost != policy cost in the stream) and loaded into a fresh cache of the same size; right after the load and after each of up to 3 x MaxSize further inserts every tracked entry lies in exactly one region, region sizes and counts equal the sums over their entries, their total equals the policy total and is at most MaxSize; non-trivial = the snapshot held a queued cost update",
+		Assumptions: pcAssumptions[1:],
 	})
 }
